@@ -205,6 +205,11 @@ def fit_case(ctx, M, rng, i):
     functional, solver, q = rand_functional(rng, w is not None)
     shape = rand_shape(rng, n)
     intobs = rng.random() < 0.12 and not any(np.isnan(o)) and all(float(x).is_integer() for x in o)
+    check_fit(ctx, M, rng, i, f, o, w, functional, solver, q, shape, intobs)
+
+
+def check_fit(ctx, M, rng, i, f, o, w, functional, solver, q, shape, intobs):
+    n = len(f)
     F, O = np.array(f).reshape(shape), np.array(o).reshape(shape)
     if intobs:
         O = O.astype(int)
@@ -287,7 +292,13 @@ def pav_case(ctx, M, rng):
     n = rng.randint(1, 10)
     y = [float(Fraction(rng.randint(0, 10), 2)) if rng.random() < 0.7 else float(rng.randint(0, 3)) for _ in range(n)]
     w = [float(rng.choice([Fraction(1, 2), Fraction(1), Fraction(2), Fraction(3)])) for _ in range(n)] if rng.random() < 0.5 else None
-    for name, p in SOLVERS:
+    check_pav(ctx, M, y, w, SOLVERS)
+    ctx.count("pav_sequences")
+
+
+def check_pav(ctx, M, y, w, solvers):
+    n = len(y)
+    for name, p in solvers:
         got = M._contiguous_ir(np.array(y), py_solver(name, p), weight=None if w is None else np.array(w))
         m = core.dec_nums(ctx.model("c15_pav", enc_list([enc_nums(y), "none" if w is None else enc_nums(w), enc_solver(name, p)])))
         ctx.case(("pav", tuple(y), None if w is None else tuple(w), name, p), n >= 2)
@@ -311,7 +322,6 @@ def pav_case(ctx, M, rng):
                                   dict(case, block=[i, j]), expect, float(got[i]))
                     break
                 i = j + 1
-    ctx.count("pav_sequences")
 
 
 def xarray_case(ctx, M, rng):
@@ -355,12 +365,16 @@ def xarray_case(ctx, M, rng):
 
 def boot_case(ctx, M, rng, i):
     f, o, w = gen_pairs(rng, nmax=9)
-    n = len(f)
     functional, solver, q = rand_functional(rng, w is not None)
     B = rng.randint(1, 7)
     conf = rng.choice([Fraction(1, 2), Fraction(3, 4), Fraction(7, 8), Fraction(9, 10), Fraction(1, 4)])
     mnn = rng.choice([1, 1, 1, 2, 3])
     seed = rng.randint(0, 2 ** 31 - 1)
+    check_boot(ctx, M, i, f, o, w, functional, solver, q, B, conf, mnn, seed)
+
+
+def check_boot(ctx, M, i, f, o, w, functional, solver, q, B, conf, mnn, seed):
+    n = len(f)
     kw = dict(kwargs(functional, solver, q, None if w is None else np.array(w)), bootstraps=B, confidence_level=float(conf), min_non_nan=mnn,
               report_bootstrap_results=True)
     case = {"fn": "isotonic_fit[bootstrap]", "fcst": f, "obs": o, "weight": w, "functional": functional, "solver": solver, "quantile_level": q,
@@ -528,31 +542,70 @@ def known_cases(ctx, M):
                       finding_key=FINDING_INT)
 
 
+def _num(x):
+    if x is None:
+        return None
+    if isinstance(x, str):
+        return float("nan") if x == "nan" else float(Fraction(x))
+    return float(x)
+
+
+def _frac(x):
+    return None if x is None else Fraction(str(x))
+
+
+def replay(ctx, obj):
+    """re-evaluate the recorded failing input(s) of a replay file on the current tree"""
+    import random
+    M = I()
+    vs = obj.get("all_violations") or ([obj["violation"]] if "violation" in obj else [])
+    vs = vs + [c for c in (obj.get("no_longer_checks") or {}).get("correspondence", []) if "case" in c]
+    for v in vs:
+        c = v["case"]
+        fn = c.get("fn") if isinstance(c, dict) else None
+        solver = None if not isinstance(c, dict) or c.get("solver") is None else (c["solver"][0], _frac(c["solver"][1]))
+        if fn == "_contiguous_ir":
+            check_pav(ctx, M, [_num(x) for x in c["y"]], None if c["weight"] is None else [_num(x) for x in c["weight"]], [solver])
+        elif fn == "isotonic_fit":
+            f, o = [_num(x) for x in c["fcst"]], [_num(x) for x in c["obs"]]
+            w = None if c["weight"] is None else [_num(x) for x in c["weight"]]
+            check_fit(ctx, M, random.Random(0), 9, f, o, w, c["functional"], solver, _frac(c["quantile_level"]), tuple(c["shape"]), bool(c.get("int_obs")))
+        elif fn == "isotonic_fit[bootstrap]":
+            f, o = [_num(x) for x in c["fcst"]], [_num(x) for x in c["obs"]]
+            w = None if c["weight"] is None else [_num(x) for x in c["weight"]]
+            check_boot(ctx, M, 9, f, o, w, c["functional"], solver, _frac(c["quantile_level"]), int(c["bootstraps"]), _frac(c["confidence_level"]),
+                       int(c["min_non_nan"]), int(c["numpy_seed"]))
+        else:
+            ctx.note("replay: case kind not replayable individually (" + str(fn) + "); running the full check instead")
+            run(ctx)
+            return
+
+
 def run(ctx):
     M = I()
     rng = ctx.rng
     known_cases(ctx, M)
-    for _ in range(ctx.n(200, 2500)):
+    for _ in range(ctx.n(200, 8000)):
         if not ctx.time_left():
             break
         pav_case(ctx, M, rng)
-    for i in range(ctx.n(700, 9000)):
+    for i in range(ctx.n(700, 30000)):
         if not ctx.time_left():
             break
         fit_case(ctx, M, rng, i)
-    for _ in range(ctx.n(150, 2000)):
+    for _ in range(ctx.n(150, 6000)):
         if not ctx.time_left():
             break
         xarray_case(ctx, M, rng)
-    for i in range(ctx.n(150, 2000)):
+    for i in range(ctx.n(150, 6000)):
         if not ctx.time_left():
             break
         boot_case(ctx, M, rng, i)
-    for _ in range(ctx.n(200, 2500)):
+    for _ in range(ctx.n(200, 8000)):
         if not ctx.time_left():
             break
         quantile_case(ctx, M, rng)
-    for _ in range(ctx.n(300, 3000)):
+    for _ in range(ctx.n(300, 8000)):
         if not ctx.time_left():
             break
         malformed_case(ctx, M, rng)
